@@ -9,9 +9,9 @@ use std::str::FromStr;
 
 pub fn lanes() -> Vec<Lane> {
     vec![
-        Lane { name: "gen", count: |c| if c.thorough() { 1_000_000 } else { 60_000 }, run: gen_lane },
+        Lane { name: "gen", count: |c| if c.thorough() { 1_500_000 } else { 200_000 }, run: gen_lane },
         Lane { name: "lines-sweep", count: |c| 2 * gen::sweep_count(LINE_KINDS.len(), if c.thorough() { 7 } else { 6 }), run: lines_sweep },
-        Lane { name: "corrupt", count: |c| if c.thorough() { 100_000 } else { 5_000 }, run: corrupt_lane },
+        Lane { name: "corrupt", count: |c| if c.thorough() { 150_000 } else { 15_000 }, run: corrupt_lane },
     ]
 }
 
